@@ -30,6 +30,7 @@ type crun struct {
 	lostQueue map[int]bool // nodes that lost their cache DB
 	lastFault time.Duration
 	extra     map[string]func(op harness.Op, idx int) // property-specific op kinds
+	settled   func() bool                            // optional extra convergence predicate
 }
 
 var clusterComponents = map[string]string{
@@ -334,7 +335,7 @@ func (r *crun) settle(budget time.Duration, resubmit bool) (finalized, total int
 	deadline := c.Q.Now + budget
 	for c.Q.Now < deadline && !c.Halt {
 		c.Run(c.Q.Now + 2*time.Second)
-		if r.allFinal() {
+		if r.allFinal() && (r.settled == nil || r.settled()) {
 			break
 		}
 	}
